@@ -21,7 +21,10 @@ RULE = ("every DAG(n) n<=4 with every disjoint (L,S) (3^n assignments) and every
         "(falsy) - label 0 is a node of every case. boundary stream: the empty graph (fresh / emptied in place by remove_nodes_from with "
         "a duplicate in the bulk argument), isolated nodes only (n<=5) with L or S = all nodes, L and S omitted instead of explicit "
         "empty sets, a node dropped in place after a warm-up, and x == y / absent x or y (ValueError as the code documents). "
-        "nested labels: two nodes labelled by the pair / frozenset of the labels of two other adjacent nodes (a fixed 8-node shape under 24 "
+        "planted stream (unit level for inducing_path / _shortest_valid_path): 900 (6000) graphs with a planted inducing path of 3-6 inner nodes "
+        "(non-colliders latent, colliders ancestors of x / y / S directly or through an intermediate node, or selected themselves), chords to "
+        "earlier path nodes, latent dead-end decoy branches, under random relabellings, insertion orders and label families, queried (x,y), "
+        "(y,x) and two random observed pairs. nested labels: two nodes labelled by the pair / frozenset of the labels of two other adjacent nodes (a fixed 8-node shape under 24 "
         "relabellings + 300 random graphs). dense stream: 250 random DAGs/ADMGs with 6-8 nodes and edge density 0.7-0.9. deep stream: "
         "chains and bidirected collider chains of 45-60 nodes with latent forks, 30 frames of recursion head-room (inducing_path only; "
         "its DFS depth is the length of the explored path, kept <= 4 by the shapes). identity-hashed label objects (family obj). "
@@ -348,9 +351,101 @@ def obj_cases(tier, rng):
         yield c
 
 
+def planted_graph(rng, k, dag):
+    """a PLANTED inducing path x = 0, 1..k, y = k+1: random edge kinds on the path; the inner nodes that come out as
+    non-colliders are made latent, every collider is made an ancestor of x / y / a selected node (directly or through an
+    intermediate node) or is selected itself; then chords from inner nodes to earlier path nodes, latent decoy branches
+    that are dead ends, and a few extra selected nodes.  None if the result is cyclic."""
+    x, y = 0, k + 1
+    D, B, L, S = [], [], [], []
+    kinds = []
+    for i in range(k + 1):
+        kd = rng.choice(("->", "<-") if dag else ("->", "<-", "<->", "<->"))
+        kinds.append(kd)
+        (B if kd == "<->" else D).append((i, i + 1) if kd != "<-" else (i + 1, i))
+    nxt = k + 2
+    for v in range(1, k + 1):
+        left_arrow = kinds[v - 1] in ("->", "<->")          # arrowhead at v on the edge (v-1, v)
+        right_arrow = kinds[v] in ("<-", "<->")
+        if not (left_arrow and right_arrow):
+            L.append(v)
+            continue
+        how = rng.choice(("x", "y", "s", "inS", "via"))
+        if how == "inS":
+            S.append(v)
+        elif how == "s":
+            D.append((v, nxt)); S.append(nxt); nxt += 1
+        elif how == "via":
+            D.append((v, nxt)); D.append((nxt, rng.choice((x, y)))); nxt += 1   # intermediate stays observed
+        else:
+            D.append((v, x if how == "x" else y))
+    have = {frozenset(e) for e in D + B}
+    for _ in range(rng.randint(0, 3)):                      # chords back to earlier path nodes
+        v = rng.randint(2, k + 1)
+        u = rng.randint(0, v - 2)
+        if frozenset((u, v)) in have or {u, v} == {x, y}:
+            continue
+        have.add(frozenset((u, v)))
+        kd = rng.choice(("->", "<-") if dag else ("->", "<-", "<->"))
+        (B if kd == "<->" else D).append((u, v) if kd != "<-" else (v, u))
+    for _ in range(rng.randint(1, 3)):                      # latent decoy branches (dead ends)
+        at = rng.randint(0, k + 1)
+        ln = rng.randint(1, 2)
+        prev = at
+        for _ in range(ln):
+            kd = rng.choice(("->", "<-") if dag else ("->", "<-", "<->"))
+            (B if kd == "<->" else D).append((prev, nxt) if kd != "<-" else (nxt, prev))
+            L.append(nxt)
+            prev = nxt
+            nxt += 1
+    if rng.random() < 0.5:                                  # an extra selected node hanging off a decoy or the path
+        D.append((rng.randint(0, nxt - 1), nxt)); S.append(nxt); nxt += 1
+    g = gr.G(range(nxt), D=D, B=B)
+    if not gr.is_acyclic(g["V"], g["D"]):
+        return None
+    return g, sorted(set(L)), sorted(set(S)), x, y
+
+
+def planted_cases(tier, rng):
+    """unit-level stream for inducing_path / _shortest_valid_path: planted inducing paths with 3..6 inner nodes, chords, decoys,
+    L and S non-empty, each under several relabellings, insertion orders and label families, queried as (x,y) and (y,x)"""
+    want = 900 if tier == "quick" else 6000
+    made = 0
+    fams = [None, None, None, "str", "tuple", "bigint", "frozenset", "char"]
+    while made < want:
+        k = rng.randint(3, 6)
+        dag = rng.random() < 0.35
+        r = planted_graph(rng, k, dag)
+        if r is None:
+            continue
+        g, L, S, x, y = r
+        n = len(g["V"])
+        for rep in range(3):
+            perm = list(range(n))
+            rng.shuffle(perm)
+            h = gr.relabel(g, lambda v: perm[v])
+            if rep == 1:
+                h["V"] = sorted(h["V"])
+            qs = [[perm[x], perm[y]], [perm[y], perm[x]]]
+            obs_ = [v for v in g["V"] if v not in L and v not in S]
+            for _ in range(2):
+                a, b = rng.sample(obs_, 2) if len(obs_) >= 2 else (x, y)
+                qs.append([perm[a], perm[b]])
+            c = {"kind": "planted%d" % k, "g": h, "L": [perm[v] for v in L], "S": [perm[v] for v in S], "qs": qs,
+                 "dag": bool(dag and n <= 8), "oracle": False}
+            fam = fams[(made + rep) % len(fams)]
+            if fam and not (fam == "char" and n > 20):
+                c["_lab"] = fam
+            if rep == 2:
+                c["_order"] = made
+            made += 1
+            yield c
+
+
 def gen_cases(tier, rng):
     quick = tier == "quick"
     yield from boundary_cases(tier, rng)
+    yield from planted_cases(tier, rng)
     yield from nest_cases(tier, rng)
     yield from dense_cases(tier, rng)
     yield from deep_cases(tier, rng)
